@@ -1242,6 +1242,24 @@ func ruleArgsPerInvocation(w *World, r *Report, rule string) {
 	}
 }
 
+// reexportC07 runs the rule set of C07 and files the obligations of the given
+// rules under another rule id.
+func reexportC07(w *World, r *Report, rule string, ids ...string) {
+	sub := NewReport(r.Prop, r.Tier, w)
+	for _, id := range []string{"R07.1", "R07.2", "R07.3", "R07.4", "R07.5", "R07.6"} {
+		sub.Rule(id, 0, "")
+	}
+	checkC07(w, sub)
+	for _, o := range sub.Obs {
+		for _, id := range ids {
+			if o.Rule == id {
+				o.Rule = rule
+				r.Obs = append(r.Obs, o)
+			}
+		}
+	}
+}
+
 // ruleLifetimeTableComplete re-exports the table-before-checks part of C07 for C06.
 func ruleLifetimeTableComplete(w *World, r *Report, rule string) {
 	sub := NewReport(r.Prop, r.Tier, w)
